@@ -130,16 +130,16 @@ func (p MembershipProof) DigestVerify(digest hashing.Digest, snapshot *Snapshot)
 		return false
 	}
 
-	hyperCorrect := p.HyperProof.Verify(digest, snapshot.HyperDigest)
-
-	if p.Exists {
-		if p.ActualVersion <= p.QueryVersion {
-			historyCorrect := p.HistoryProof.Verify(digest, snapshot.HistoryDigest)
-			return hyperCorrect && historyCorrect
-		}
+	// A membership answer is only accepted when it claims existence at a version
+	// not later than the queried one, and both proofs bind that claim.
+	if !p.Exists || p.ActualVersion > p.QueryVersion {
+		return false
 	}
 
-	return hyperCorrect
+	hyperCorrect := p.HyperProof.Verify(digest, snapshot.HyperDigest)
+	historyCorrect := p.HistoryProof.Verify(digest, snapshot.HistoryDigest)
+
+	return hyperCorrect && historyCorrect
 }
 
 // Verify verifies a proof and answer from QueryMembership. Returns true if the
